@@ -99,8 +99,12 @@ impl<'i, R: RuleType> FlatPairs<'i, R> {
 
 impl<R: RuleType> ExactSizeIterator for FlatPairs<'_, R> {
     fn len(&self) -> usize {
-        // Tokens len is exactly twice as flatten pairs len
-        (self.end - self.start) >> 1
+        // Each remaining pair is represented by its `Start` token in the window. (Once the
+        // iterator has been advanced the window may also hold `End` tokens whose `Start` was
+        // already yielded, so halving the window length is only right for a fresh iterator.)
+        (self.start..self.end)
+            .filter(|&index| self.is_start(index))
+            .count()
     }
 }
 
